@@ -15,9 +15,9 @@ namespace NauyacaVerif.C18
 open Srv
 
 theorem maxMeta_tie : Srv.maxMeta = Gen.maxMeta := by decide
-theorem decodeText_tie : Gen.proxyDecodeText = false := by decide
-theorem followRedirects_tie : Gen.proxyFollowRedirects = false := by decide
-theorem tofu_tie : Gen.proxyTofu = false := by decide
+theorem decodeText_tie : Gen.proxyDecodeText = false ∧ Gen.proxyDecodeText_found = true := by decide
+theorem followRedirects_tie : Gen.proxyFollowRedirects = false ∧ Gen.proxyFollowRedirects_found = true := by decide
+theorem tofu_tie : Gen.proxyTofu = false ∧ Gen.proxyTofu_found = true := by decide
 
 /-- a well-formed upstream response — status 10–69, meta of at most `MAX_META_SIZE` bytes that is
     valid UTF-8 without CR/LF, body only with 2x — leaves the proxy as exactly the bytes the upstream
